@@ -40,6 +40,8 @@ def main():
     for rid in ids:
         d = os.path.join(REF, rid)
         meta = json.load(open(os.path.join(d, "meta.json")))
+        if meta.get("retired"):
+            continue
         wt = "/tmp/refac-wt-%s-%d" % (rid, os.getpid())
         sh(["git", "-C", "/repo", "worktree", "add", "--detach", wt, "HEAD"])
         try:
